@@ -96,6 +96,14 @@ def main():
     meta["caught"] = any(r["exit"] == 1 for r in results.values())
     d = os.path.join(V, "seeded", sid)
     os.makedirs(d, exist_ok=True)
+    mp = os.path.join(d, "meta.json")
+    if os.path.exists(mp):
+        old = json.load(open(mp))
+        if "confirmed" not in meta and "confirmed" in old:
+            meta["confirmed"] = old["confirmed"]
+        hist = old.get("history", [])
+        hist.append({"evaluation": old.get("evaluation"), "caught": old.get("caught")})
+        meta["history"] = hist
     shutil.copy(diff, os.path.join(d, "patch.diff"))
     shutil.copy(demo, os.path.join(d, demos[0]))
     with open(os.path.join(d, "meta.json"), "w") as f:
